@@ -284,6 +284,8 @@ def harness_opts(c):
     o = []
     if c.get("cancelable"):
         o.append("--cancelable")
+    if not c.get("ready", True):
+        o.append("--not-ready")
     o += ["--ring", str(c.get("K", 8)), "--queue", str(c.get("QCap", 10)), "--stack", str(c.get("SCap", 10))]
     return o
 
